@@ -218,3 +218,6 @@ def load_corpus(prop):
             with open(os.path.join(d, fn)) as f:
                 out += [ln.rstrip("\n") for ln in f if ln.strip() and not ln.startswith("#")]
     return out
+
+
+CHECKS = {"C06": check_C06}
